@@ -800,3 +800,32 @@ func fieldTypeOf(P *Program, named, field string) types.Type {
 	}
 	return types.Typ[types.Int]
 }
+
+func init() {
+	register(&Rule{
+		ID: "flow.threshold-computed-per-check", Props: []string{"C11", "C02", "C10"}, Floor: 1,
+		Doc: "TrafficShapingController.PerformChecking hands the checker the threshold that the calculator computed for this very check: the threshold argument of TrafficShapingChecker.DoCheck is the result of a TrafficShapingCalculator.CalculateAllowedTokens invoke made, unconditionally, earlier in the same call (not a cached field, not a value computed under a condition). A threshold reused across checks lags behind the memory reading / warm-up state it must follow",
+		Run: func(c *Ctx) {
+			f := c.P.Func("core/flow.(*TrafficShapingController).PerformChecking")
+			if f == nil {
+				c.AnchorLost("TrafficShapingController.PerformChecking")
+				return
+			}
+			n := 0
+			for _, ci := range callsIn(f) {
+				if !isInvokeOf(ci, "TrafficShapingChecker", "DoCheck") {
+					continue
+				}
+				n++
+				args := ci.Common().Args
+				th := resolve(args[len(args)-1])
+				call, ok := th.(*ssa.Call)
+				fresh := ok && isInvokeOf(call, "TrafficShapingCalculator", "CalculateAllowedTokens") && call.Parent() == f && len(condFacts(call.Block())) == 0 && instrDominates(call, ci.(ssa.Instruction))
+				c.Check(fresh, fmt.Sprintf("%s / DoCheck#%d", fnKey(f), n), ci.Pos(), "threshold argument %s is the calculator's result for this check", accessPath(args[len(args)-1]))
+			}
+			if n == 0 {
+				c.Violate(fnKey(f)+" / DoCheck", f.Pos(), "PerformChecking no longer consults the checker")
+			}
+		},
+	})
+}
